@@ -179,3 +179,17 @@ Definition C10_hold_ok (c1 bad c2 lo1 b1 m1 r1 b2 lo2 m2 : Z) : bool :=
   && (lo2 + ret2 <=? m2)
   && (bad + linetime c1 <=? m1 + threshold)
   && (bad + linetime c1 + linetime c2 <=? m2 + threshold).
+
+(* C10_fresh_ok: a run observed from a genuinely fresh client (badness 0, lastsent = its
+   creation time, which is at or after the origin 0 of the time stamps): for every line j,
+   the charges of lines 1..j never exceed its write time by more than 10 s — the anchored
+   bound from the fresh state.  Unlike the window bound it has no slack of two charges: the
+   first line whose accumulated penalty exceeds 10 s must really wait. *)
+Fixpoint fresh_from (acc : Z) (ws : list (Z * Z)) : bool :=
+  match ws with
+  | [] => true
+  | (c, w) :: rest =>
+      let acc' := acc + linetime c in
+      (acc' <=? w + threshold) && fresh_from acc' rest
+  end.
+Definition C10_fresh_ok (ws : list (Z * Z)) : bool := fresh_from 0 ws.
